@@ -19,7 +19,7 @@ from collections import abc, namedtuple
 from decimal import Decimal
 from warnings import warn
 
-from .collections import PVLObject, PVLGroup, Quantity
+from .collections import PVLModule, PVLObject, PVLGroup, Quantity
 from .grammar import PVLGrammar, ODLGrammar, PDSGrammar, ISISGrammar
 from .token import Token
 from .decoder import PVLDecoder, ODLDecoder, PDSLabelDecoder
@@ -988,22 +988,26 @@ class PDSLabelEncoder(ODLEncoder):
 
         if grp_count > 0 and obj_count < 1:
             if self.convert_group_to_object:
-                for k, v in module.items():
-                    # First try to convert any GROUPs that would not
-                    # be valid PDS GROUPs.
-                    if isinstance(v, self.grpcls) and not self.is_PDSgroup(v):
-                        module[k] = self.objcls(v)
-                        break
-                else:
-                    # Then just convert the first GROUP
-                    for k, v in module.items():
-                        if isinstance(v, self.grpcls):
-                            module[k] = self.objcls(v)
-                            break
-                    else:
-                        raise ValueError(
-                            "Couldn't convert any of the GROUPs " "to OBJECTs."
-                        )
+                items = list(module.items())
+                groups = [
+                    i for i, (k, v) in enumerate(items)
+                    if isinstance(v, self.grpcls)
+                ]
+                # First try to convert any GROUPs that would not
+                # be valid PDS GROUPs, then just convert the first GROUP.
+                invalid = [
+                    i for i in groups if not self.is_PDSgroup(items[i][1])
+                ]
+                if len(groups) == 0:
+                    raise ValueError(
+                        "Couldn't convert any of the GROUPs " "to OBJECTs."
+                    )
+                i = invalid[0] if invalid else groups[0]
+                items[i] = (items[i][0], self.objcls(items[i][1]))
+                # Encode a copy: assigning module[k] would also delete every
+                # later item named k, from the output and from the caller's
+                # module.
+                module = PVLModule(items)
             else:
                 raise ValueError(
                     "This module has a GROUP element, but no "
